@@ -20,7 +20,7 @@ import ast
 from . import _logrules as LR
 from ..engines.conform import definitely_assigned, bound_method, oracle_accesses
 from ..engines.solvers import find_setup
-from ..srcmodel import AnalysisError, U, calls_in
+from ..srcmodel import AnalysisError, U, calls_in, target_names
 
 LI = 'src/mbi/local_inference.py'
 INIT = 'src/mbi/__init__.py'
@@ -145,6 +145,8 @@ def run(ctx):
 
     check_feasibility(ctx, classes)
     check_restart_point(ctx, methods)
+    check_polished_result(ctx, methods)
+    check_outer_regions(ctx)
 
     # ---- estimate stores what the inner loop returned ----------------------------------------------
     md = methods.get('mirror_descent')
@@ -336,3 +338,90 @@ def check_restart_point(ctx, methods):
         ctx.ob('restart-point', fi, store, all(ok for _, _, ok in sites),
                'the line search restarts from `%s`, which no in-place operation reaches (%d candidate site(s) examined)' % (X, len(sites)),
                construct='restart point of ' + fi.name)
+
+
+def check_polished_result(ctx, methods):
+    """the tables whose feasibility is enforced by the extra sweeps are the tables that are returned"""
+    from ..normalise import Defs, expand
+    n = 0
+    for name, fi in methods.items():
+        for lp in ast.walk(fi.node):
+            if not isinstance(lp, (ast.For, ast.While)):
+                continue
+            tested = [c for c in calls_in(lp) if isinstance(c.func, ast.Attribute) and c.func.attr == 'primal_feasibility' and len(c.args) == 1
+                      and isinstance(c.args[0], ast.Name)]
+            if not tested:
+                continue
+            V = tested[0].args[0].id
+            reassigned = any(isinstance(s_, ast.Assign) and V in [x for t in s_.targets for x in target_names(t)] for s_ in ast.walk(lp))
+            if not reassigned:
+                continue
+            n += 1
+            ctx.analysed(fi)
+            order = []
+
+            def dfs(nd):
+                order.append(id(nd))
+                for ch in ast.iter_child_nodes(nd):
+                    dfs(ch)
+            dfs(fi.node)
+            pos = {k: i for i, k in enumerate(order)}
+            rets = [r for r in ast.walk(fi.node) if isinstance(r, ast.Return) and isinstance(r.value, ast.Tuple) and pos[id(r)] > pos[id(lp)]]
+            if not rets:
+                raise AnalysisError('%s: no tuple result after the feasibility sweeps' % fi.qualname)
+            # copies made after the loop: R = V / R = T; T = V
+            after = []
+            par = getattr(lp, '_parent', None)
+            blk = getattr(par, 'body', []) if par is not None else []
+            if lp in blk:
+                after = blk[blk.index(lp) + 1:]
+            copies = {V}
+            for s_ in after:
+                if isinstance(s_, ast.Assign) and len(s_.targets) == 1 and isinstance(s_.targets[0], ast.Name) and isinstance(s_.value, ast.Name):
+                    if s_.value.id in copies:
+                        copies.add(s_.targets[0].id)
+                    else:
+                        copies.discard(s_.targets[0].id)
+                elif isinstance(s_, ast.Assign):
+                    for t in s_.targets:
+                        for x in target_names(t):
+                            copies.discard(x)
+            for r in rets:
+                got = [U(e) for e in r.value.elts]
+                ok = any(g in copies for g in got)
+                ctx.ob('polished-result', fi, r, ok,
+                       'the extra sweeps test and refresh `%s` until it is primal feasible; the result must carry those tables, it returns (%s) '
+                       '- the tables checked for feasibility are not the tables handed back' % (V, ', '.join(got)) if not ok else
+                       'the tables made feasible (`%s`) are the ones returned' % V, construct='tables returned after the feasibility sweeps')
+    if n == 0:
+        raise AnalysisError('LocalInference: the feasibility sweeps (`primal_feasibility(mu)` ... `mu = belief_propagation(theta)`) were not found')
+
+
+def check_outer_regions(ctx):
+    """the non-convex oracle keeps the cliques that are not PROPERLY contained in another one; a non-strict containment test against
+    the other list entries drops every copy of a clique that is listed twice"""
+    fi = ctx.repo.nfunc('src/mbi/region_graph.py', 'RegionGraph.__init__')
+    ctx.analysed(fi)
+    n = 0
+    for c in calls_in(fi.node):
+        if not (U(c.func) == 'any' and len(c.args) == 1 and isinstance(c.args[0], ast.GeneratorExp) and len(c.args[0].generators) == 1):
+            continue
+        g = c.args[0].generators[0]
+        e = c.args[0].elt
+        strict = None
+        if isinstance(e, ast.Compare) and len(e.ops) == 1 and all(isinstance(x, ast.Call) and U(x.func) == 'set' for x in [e.left, e.comparators[0]]):
+            if isinstance(e.ops[0], ast.Lt):
+                strict = True
+            elif isinstance(e.ops[0], ast.LtE):
+                strict = False
+        elif isinstance(e, ast.Call) and isinstance(e.func, ast.Attribute) and e.func.attr == 'issubset':
+            strict = False
+        if strict is None:
+            continue
+        n += 1
+        ctx.ob('outer-regions', fi, c, strict,
+               'an input clique may be dropped only when it is PROPERLY contained in another one (`set(r) < set(s)`); `%s` also drops a '
+               'clique that merely equals another list entry - every copy of a clique measured twice disappears' % U(e)
+               if not strict else 'cliques are dropped only when properly contained in another one', construct='maximality filter of the outer regions')
+    if n == 0:
+        raise AnalysisError('RegionGraph.__init__: the maximality filter of the non-convex oracle was not found')
